@@ -115,8 +115,12 @@ impl<'a> Ctx<'a> {
         0..self.r.n_scripted
     }
     fn bodiless_method(&self, i: usize) -> bool {
-        let m = self.reqs[i].method.as_str();
-        self.wellformed_req(i) && (m == "HEAD" || m == "OPTIONS")
+        // what the server can read off the request line, whether or not the rest is well-formed
+        // permissive on purpose: whenever the server may have read HEAD or OPTIONS off the bytes,
+        // the absence of a body is not held against it (the strict direction is C05's)
+        let bytes = self.reqs_bytes(i);
+        let first: Vec<u8> = bytes.iter().skip_while(|c| c.is_ascii_whitespace()).take_while(|c| !c.is_ascii_whitespace()).map(|c| c.to_ascii_uppercase()).collect();
+        first == b"HEAD" || first == b"OPTIONS"
     }
     /// the response is one complete message: head, and a body as long as Content-Length says
     fn complete(&self, i: usize) -> Result<(), String> {
@@ -145,6 +149,12 @@ impl<'a> Ctx<'a> {
         let q = &self.reqs[i];
         const METHODS: [&str; 9] = ["GET", "HEAD", "POST", "PUT", "DELETE", "CONNECT", "OPTIONS", "TRACE", "PATCH"];
         q.line_ok && q.head_complete && q.head_utf8 && q.version == "HTTP/1.1" && METHODS.contains(&q.method.as_str()) && q.target.starts_with('/')
+    }
+    /// the request line alone is valid: known method, a target, a supported version
+    fn request_line_valid(&self, i: usize) -> bool {
+        let q = &self.reqs[i];
+        const METHODS: [&str; 9] = ["GET", "HEAD", "POST", "PUT", "DELETE", "CONNECT", "OPTIONS", "TRACE", "PATCH"];
+        q.line_ok && METHODS.contains(&q.method.as_str()) && ["HTTP/1.1", "HTTP/1.0"].contains(&q.version.as_str()) && q.target.bytes().all(|c| c > 0x20 && c < 0x7f)
     }
     fn panic_for_conn(&self, i: usize) -> Option<&PanicRec> {
         self.r.panics.iter().find(|p| p.conn == Some(i))
@@ -451,7 +461,7 @@ fn wellformed_verdicts(cx: &Ctx, i: usize, o: &mut Outcome) {
     }
     // the method only counts when the server could read it: an unparsable request is
     // answered as such, whatever its first word was
-    let method = if cx.wellformed_req(i) { cx.reqs[i].method.as_str() } else { "" };
+    let method = if cx.request_line_valid(i) { cx.reqs[i].method.as_str() } else if cx.bodiless_method(i) { "?" } else { "" };
     let cl = resp.get("Content-Length").map(|x| x.trim().parse::<usize>());
     if method == "HEAD" || method == "OPTIONS" {
         if !resp.body.is_empty() {
@@ -464,7 +474,7 @@ fn wellformed_verdicts(cx: &Ctx, i: usize, o: &mut Outcome) {
                 }
             }
         }
-    } else {
+    } else if method != "?" {
         match cl {
             Some(Ok(n)) => {
                 // only a fully delivered response can be measured (completeness itself is C04's)
